@@ -4,7 +4,7 @@ package cache
 
 // Machine-checked contracts for the cache (comment-only; compiled only with -tags verif).
 
-//@ props C01 C02 C10 C14
+//@ props C01 C02 C10 C14 C19
 
 //@ pred CacheInv(c *Cache) := c.inner != nil
 
@@ -29,25 +29,53 @@ package cache
 // Dump: json.Marshal + os.WriteFile (truncate, then write): on error the file may be left torn.
 //@ func (*Cache).Dump
 //@ requires CacheInv(c)
-//@ modifies fexists, fdata
+//@ modifies fexists, fdata, fswrites
+//@ ensures [C19,writes-only-the-cache-file] fswrites == store(old(fswrites), path, true) || fswrites == old(fswrites)
 //@ ensures err == nil ==> fexists == store(old(fexists), path, true) && fdata == store(old(fdata), path, marshalMap(mapval(c.inner)))
 //@ ensures err != nil ==> forall p string :: {fdata[p]} p != path ==> fdata[p] == old(fdata)[p]
 //@ ensures err != nil ==> forall p string :: {fexists[p]} p != path ==> fexists[p] == old(fexists)[p]
-//@ ensures err != nil ==> !diskOK(path) || fdata[path] == old(fdata)[path] || fdata[path] == marshalMap(mapval(c.inner))
+//@ ensures err != nil ==> !diskOK(path) || (fdata[path] == old(fdata)[path] && fexists[path] == old(fexists)[path]) || fdata[path] == marshalMap(mapval(c.inner))
 //@ ensures ioOK ==> err == nil
 //@ crashensures forall p string :: {fdata[p]} p != path ==> fdata[p] == old(fdata)[p]
 //@ crashensures forall p string :: {fexists[p]} p != path ==> fexists[p] == old(fexists)[p]
-//@ crashensures !diskOK(path) || fdata[path] == old(fdata)[path] || fdata[path] == marshalMap(mapval(c.inner))
+//@ crashensures !diskOK(path) || (fdata[path] == old(fdata)[path] && fexists[path] == old(fexists)[path]) || fdata[path] == marshalMap(mapval(c.inner))
 
 //@ func Exists
 //@ ensures result ==> fexists[path]
 //@ ensures ioOK && fexists[path] ==> result
 
-// Init writes an all-empty cache (and .gitignore / CACHEDIR.TAG next to it).
+// Init writes an all-empty cache and, next to it, .gitignore and CACHEDIR.TAG.
 //@ func Init
-//@ trusted os.MkdirAll / os.WriteFile effects on the abstract file system are not modelled per call yet
-//@ modifies fexists, fdata
+//@ requires path == join2(dirOf(path), "cache.json")
+//@ modifies fexists, fdata, fswrites
 //@ ensures err == nil ==> diskOK(path) && forall k string :: {jsonGet(fdata[path], k)} jsonGet(fdata[path], k) == ""
-//@ ensures err != nil ==> !diskOK(path) || forall k string :: {jsonGet(fdata[path], k)} jsonGet(fdata[path], k) == ""
+//@ ensures err != nil ==> !diskOK(path) || (fdata[path] == old(fdata)[path] && fexists[path] == old(fexists)[path]) || forall k string :: {jsonGet(fdata[path], k)} jsonGet(fdata[path], k) == ""
 //@ ensures ioOK ==> err == nil
-//@ crashensures !diskOK(path) || forall k string :: {jsonGet(fdata[path], k)} jsonGet(fdata[path], k) == ""
+//@ ensures [C19,writes-only-inside-the-cache-directory] forall p string :: {fswrites[p]} fswrites[p] && !old(fswrites)[p] ==> ancOrSelf(dirOf(path), p)
+//@ crashensures !diskOK(path) || (fdata[path] == old(fdata)[path] && fexists[path] == old(fexists)[path]) || forall k string :: {jsonGet(fdata[path], k)} jsonGet(fdata[path], k) == ""
+//@ loop 0: invariant 0 <= $i && $i <= len(names) && cache != nil && cache.inner != nil && fswrites == old(fswrites) && fdata == old(fdata) && fexists == old(fexists)
+//@ loop 0: invariant mapval(cache.inner) == mapval(cache.inner) && forall k string :: {mget(mapval(cache.inner), k)} mget(mapval(cache.inner), k) == ""
+//@ loop 0: decreases len(names) - $i
+
+//@ func makeGitIgnore
+//@ modifies fexists, fdata, fswrites
+//@ ensures fswrites == store(old(fswrites), join2(dir, ".gitignore"), true)
+//@ ensures forall p string :: {fdata[p]} p != join2(dir, ".gitignore") ==> fdata[p] == old(fdata)[p]
+//@ ensures forall p string :: {fexists[p]} p != join2(dir, ".gitignore") ==> fexists[p] == old(fexists)[p]
+//@ ensures ioOK ==> result == nil
+//@ crashensures forall p string :: {fdata[p]} p != join2(dir, ".gitignore") ==> fdata[p] == old(fdata)[p]
+//@ crashensures forall p string :: {fexists[p]} p != join2(dir, ".gitignore") ==> fexists[p] == old(fexists)[p]
+
+//@ func makeCacheDirTag
+//@ modifies fexists, fdata, fswrites
+//@ ensures fswrites == store(old(fswrites), join2(dir, "CACHEDIR.TAG"), true)
+//@ ensures forall p string :: {fdata[p]} p != join2(dir, "CACHEDIR.TAG") ==> fdata[p] == old(fdata)[p]
+//@ ensures forall p string :: {fexists[p]} p != join2(dir, "CACHEDIR.TAG") ==> fexists[p] == old(fexists)[p]
+//@ ensures ioOK ==> result == nil
+//@ crashensures forall p string :: {fdata[p]} p != join2(dir, "CACHEDIR.TAG") ==> fdata[p] == old(fdata)[p]
+//@ crashensures forall p string :: {fexists[p]} p != join2(dir, "CACHEDIR.TAG") ==> fexists[p] == old(fexists)[p]
+
+// the package-level variable Path is initialised to Join(Dir, File)
+//@ func init
+//@ modifies global(cache.Path)
+//@ ensures Path == join2(".spok", "cache.json")
